@@ -59,14 +59,25 @@ Definition ser_args (voc : list (list Z)) (a : list obj) (kw : list (Z * obj)) (
 Definition kw_eqb (a b : list (Z * obj)) : bool :=
   list_eqbw (fun x y => Z.eqb (fst x) (fst y) && obj_eqb (snd x) (snd y)) a b.
 Definition ccode (r : cv) (a : list obj) (kw : list (Z * obj)) : Z :=
-  match r with CInvoke a' kw' => if list_eqbw obj_eqb a a' && kw_eqb kw kw' then 1 else 4 | CViol => 2 | CAbort => 3 end.
+  match r with CInvoke a' kw' => if list_eqbw obj_eqb a a' && kw_eqb kw kw' then 1 else 4 | CViol => 2 | CAbort => 3 | CFail => 5 end.
 Definition rcode (r : rv) (o : obj) : Z :=
   match r with RDeliver o' => if obj_eqb o o' then 1 else 4 | RViol => 2 | RAbort => 3 end.
-Definition mk (l : list (Z * ctr * bool)) : mschema :=
-  {| ms_args := map (fun x => {| a_name := fst (fst x); a_ctr := snd (fst x); a_opt := snd x |}) l; ms_resp := None |}.
+Definition mk (l : list (Z * ctr * bool)) (resp : option ctr) (ign acc : bool) : mschema :=
+  {| ms_args := map (fun x => {| a_name := fst (fst x); a_ctr := snd (fst x); a_opt := snd x |}) l; ms_resp := resp;
+     ms_ignore := ign; ms_accept := acc |}.
+Definition acode (r : av) (o : obj) : Z :=
+  match r with Callback v => if obj_eqb v o then 1 else 4 | Errback => 2 | ConnLost => 3 end.
 """
 
 NAMES = ["a", "b", "c"]
+
+
+def nm(n):
+    """an argument name as the model's identifier: Schema.name_code of its bytes (base 256 behind a leading 1)"""
+    v = 1
+    for b in n.encode():
+        v = v * 256 + b
+    return v
 
 
 def tail(s, n=2500):
@@ -82,8 +93,12 @@ def ms_term(S, ms):
         c = ms.argConstraints[n]
         if isinstance(c, Optional):
             c = c.constraint
-        rows.append("(%d, %s, %s)" % (NAMES.index(n) + 1, S.to_ctr(c), "false" if n in ms.required else "true"))
-    return "(mk [%s])" % "; ".join(rows)
+        rows.append("(%d, %s, %s)" % (nm(n), S.to_ctr(c), "false" if n in ms.required else "true"))
+    try:
+        resp = "None" if ms.responseConstraint is None else "(Some %s)" % S.to_ctr(ms.responseConstraint)
+    except ValueError:
+        resp = "None"
+    return "(mk [%s] %s %s %s)" % ("; ".join(rows), resp, "true" if ms.ignoreUnknown else "false", "true" if ms.acceptUnknown else "false")
 
 
 def run(ctx):
@@ -91,9 +106,11 @@ def run(ctx):
                 "checkObject and sitting on the 2^31 / 2^(8*maxBytes) / maxLength / maxKeys / arity boundaries, plus "
                 "near-misses generated for a perturbed constraint); each is a real callRemote over a loopback Broker pair "
                 "sharing the RemoteInterface; non-trivial = the sender's check accepted and something crossed the wire")
-    ctx.assumptions = ["values are trees (sharing inside one call is exercised by fixed cases only)",
-                       "bytes equal to a vocabulary word travel as VOCAB tokens: covered by the oracle, not by the model's slice",
-                       "regexp constraints, RemoteInterface/Copyable constraints and Shared are outside the model",
+    ctx.assumptions = ["sharing: repeats of one list/tuple/set/dict object inside a call travel as references (Schema.ser, "
+                       "C12_every_serialization); cyclic values are outside the honest-sender theorems",
+                       "vocabulary: the model's slice takes the connection's vocabulary as a parameter (VOCAB tokens carry the index)",
+                       "regexp constraints, Copyable constraints, Shared and the OUTBOUND side of RemoteInterface constraints "
+                       "(live Referenceables) are outside the model",
                        "TLS/negotiation replaced by a loopback Broker pair (foolscap.test.common.Loopback)"]
     ok, log = ctx.coq_build(["props/C12.vo"])
     known = common.load_known()
@@ -120,24 +137,35 @@ def run(ctx):
 
 
 # ---------------------------------------------------------------------------------------------------------------
-def one_call(S, E, argspec, args_vs, kwargs_vs, vocab=0, direct=False, per_instance=False, echo=False, preamble=False):
-    """argspec: [(name, cs, optional?)]; -> dict(sender_ok, outcome, delivered, ms term, region set)"""
+def one_call(S, E, argspec, args_vs, kwargs_vs, vocab=0, direct=False, per_instance=False, echo=False, preamble=False, flag=None):
+    """argspec: [(name, cs, optional?)]; -> dict(sender_ok, outcome, delivered, ms term, region set)
+    flag: "__ignoreUnknown__" | "__acceptUnknown__" given to RemoteMethodSchema( **constraints ) as True"""
     cons = []
     for n, cs, opt in argspec:
         c = S.build(cs)
         cons.append(S.schema.Optional(c, None) if opt else c)
+    names_ = [n for n, _, _ in argspec]
+    if flag:
+        names_, cons, direct = names_ + [flag], cons + [True], True
     # echo: the method returns its (single) argument and the interface declares the argument's constraint as the
     # result constraint too: "and symmetrically for results"
-    w = S.World([n for n, _, _ in argspec], cons, cons[0] if echo else None, vocab=vocab, direct=direct,
+    w = S.World(names_, cons, cons[0] if echo else None, vocab=vocab, direct=direct,
                 per_instance=per_instance, echo=echo)
     memo = {}
     args = tuple(S.to_py(v, memo) for v in args_vs)
     kwargs = {n: S.to_py(v, memo) for n, v in kwargs_vs}
+    sender_exc = None
     try:
         w.ms.checkAllArgs(args, kwargs, False)
         sender_ok = True
     except S.Violation:
         sender_ok = False
+    except AttributeError as e:
+        # an undeclared keyword under __ignoreUnknown__ / __acceptUnknown__: None.checkObject (C02's finding
+        # oracle/unknown-flag-attributeerror); for C12 the sender's check simply did not accept
+        if not flag:
+            raise
+        sender_ok, sender_exc = False, "AttributeError"
     if preamble:
         # history on this connection: a call that the receiver refuses in the middle and whose remaining tokens it
         # discards.  What follows on the connection must be treated exactly as on a fresh one.
@@ -165,12 +193,15 @@ def one_call(S, E, argspec, args_vs, kwargs_vs, vocab=0, direct=False, per_insta
         r["outcome"] = "dead"
     elif out[0] == "violation-local" and not S.is_remote_failure(res[0]):
         r["outcome"] = "sender-rejects"          # raised locally by callRemote's own check (not a CopiedFailure)
+    elif sender_exc and out[0] == "exc" and sender_exc in str(out[1]) and not sent:
+        r["outcome"] = "sender-rejects"          # ... with the AttributeError of the unknown-argument flags; nothing was sent
     elif out[0] in ("violation-local", "violation-remote"):
         r["outcome"] = "receiver-rejects"
     else:
         r["outcome"] = "other:%s" % (out,)
     r["ms"] = ms_term(S, w.ms)
     r["vocab"] = vocab
+    r["flag"] = flag
     return r
 
 
@@ -306,11 +337,45 @@ FIXED = [
 ]
 
 
+def remote_outbound(ctx, S, E):
+    """RemoteInterface arguments with the REAL sender: both ends share m(a=<declared>), the caller passes a live
+    Referenceable implementing <implemented>, over the family RIVBase <- RIVDerived <- RIVSub, RIVOther, RemoteInterface.
+    (The Coq model has the receiver's view of such values only: oracle only.)"""
+    S.family()
+    for decl in ("RIVBase", "RIVDerived", "RIVSub", "RIVOther"):
+        for impl in ("RIVBase", "RIVDerived", "RIVSub", "RIVOther", None):
+            w = S.World(["a"], [S.build(["remote", decl])], None, shared_iface=True)
+            obj = S.referenceable_claiming(impl)
+            try:
+                w.ms.checkAllArgs((obj,), {}, False)
+                sender_ok = True
+            except S.Violation:
+                sender_ok = False
+            res = w.call((obj,), {})
+            out = S.outcome_of(res)
+            delivered = len(w.target.calls) == 1 and out[0] == "ok"
+            case = dict(declared=decl, implemented=impl, sender="callRemote through the shared RemoteInterface")
+            ctx.case(["remote-outbound", decl, impl], nontrivial=sender_ok)
+            ctx.hist("remote_outbound", "%s/%s" % ("sender-accepts" if sender_ok else "sender-rejects", "delivered" if delivered else out[0]))
+            if sender_ok and not delivered:
+                sub = impl is not None and impl != decl and decl in S.FAMILY_PARENTS.get(impl, [])
+                if not w.alive():
+                    sig = "oracle/receiver-drops-connection"
+                elif sub and out[0].startswith("violation"):
+                    sig = "oracle/remote-subinterface-rejected"
+                else:
+                    sig = "oracle/receiver-rejects"
+                ctx.fail(sig, "the sender's check accepted a Referenceable implementing %s for an argument declared %s (shared "
+                         "RemoteInterface), but the call was not delivered: %r" % (impl, decl, out), replay=case)
+            if not sender_ok and (w.target.calls or out[0] != "violation-local"):
+                ctx.fail("oracle/sender-check-not-applied", "checkAllArgs(outbound) rejects but callRemote produced %r: %r" % (out, case), replay=case)
+
+
 def oracle(ctx, S, E):
     cases = []
     rng = ctx.rng
 
-    def do(tag, argspec, args_vs, kwargs_vs, vocab=None, direct=None, per_instance=None):
+    def do(tag, argspec, args_vs, kwargs_vs, vocab=None, direct=None, per_instance=None, flag=None):
         if vocab is None:
             vocab = ctx.rng.choice([0, 1, 1])          # both initial vocab tables a negotiated connection can have
         if direct is None:
@@ -324,7 +389,7 @@ def oracle(ctx, S, E):
         ctx.hist("schema_declared_by", "RemoteMethodSchema(**kwargs)" if direct else "prototype function")
         ctx.hist("interface_declared_on", "instance" if per_instance else "class")
         try:
-            r = one_call(S, E, argspec, args_vs, kwargs_vs, vocab, direct, per_instance, echo, preamble)
+            r = one_call(S, E, argspec, args_vs, kwargs_vs, vocab, direct, per_instance, echo, preamble, flag)
         except Exception as e:
             import traceback
             ctx.fail("oracle/implementation-raised", "building the schema or calling through it raised %s: %r; case %s"
@@ -334,7 +399,7 @@ def oracle(ctx, S, E):
             return
         judge(ctx, S, tag, argspec, args_vs, kwargs_vs, r)
         nontriv = r["sender_ok"] and r["sent"]
-        ctx.case(["c12", argspec, args_vs, kwargs_vs], nontrivial=nontriv)
+        ctx.case(["c12", argspec, args_vs, kwargs_vs, flag], nontrivial=nontriv)
         ctx.sample(dict(argspec=argspec, args=str(args_vs)[:200], kwargs=str(kwargs_vs)[:100], outcome=r["outcome"]))
         cases.append(dict(tag=tag, argspec=argspec, args=args_vs, kwargs=kwargs_vs, r=r))
     # corpus (regression witnesses) first
@@ -385,9 +450,29 @@ def oracle(ctx, S, E):
             do("optional-arg", spec, [["i", 1]], [["b", v]], None, direct)
             do("optional-arg", spec, [["i", 1]], [], None, direct)
             do("optional-arg", [("a", x, True)], [], [["a", v]], None, direct)
+    # method schemas carrying __ignoreUnknown__ / __acceptUnknown__: declared arguments go through as always (positional,
+    # keyword, Optional omitted); an undeclared keyword never passes the SENDER's check (it raises), so nothing is sent
+    for flag in ("__ignoreUnknown__", "__acceptUnknown__"):
+        spec = [("a", ["py", "int"], False), ("b", ["list", ["py", "bytes"], 2, 0], True)]
+        do("unknown-flag", spec, [["i", 2 ** 40]], [], None, True, None, flag)
+        do("unknown-flag", spec, [], [["a", ["i", -1]], ["b", ["l", [["b", [1]]]]]], None, True, None, flag)
+        do("unknown-flag", spec, [["i", 1], ["l", []]], [], None, True, None, flag)
+        do("unknown-flag", spec, [["i", 1]], [["z", ["i", 5]]], None, True, None, flag)
+        do("unknown-flag", spec, [], [["a", ["i", 1]], ["z", ["l", [["i", 5]]]]], None, True, None, flag)
+        do("unknown-flag", spec, [["t", [120]]], [], None, True, None, flag)
     late_registration(ctx, S, E)
-    # one container object occurring twice in a call, under every container constraint kind
-    for i in range(ctx.n(160, 1500)):
+    remote_outbound(ctx, S, E)
+    # one container object occurring twice in a call, under every container constraint kind: a fixed sweep (every kind,
+    # frozensets included, in every position pattern; its own random stream so that it is the same in every run) ...
+    import random
+    frng = random.Random(20260926)
+    for kind in S.CONTAINER_KINDS:
+        for shape in S.SHARED_SHAPES:
+            g = S.gen_shared_call(frng, kind, shape)
+            if g is not None:
+                do("shared", g[0], g[1], g[2])
+    # ... and generated ones
+    for i in range(ctx.n(120, 1500)):
         g = S.gen_shared_call(rng)
         if g is None:
             continue
@@ -525,7 +610,7 @@ def correspond(ctx, S, cases, diff):
         rows = []
         for c in chunk:
             a = coq_list([S.to_obj(S.canon_vs(v)) for v in c["args"]])
-            kw = coq_list(["(%d, %s)" % (NAMES.index(n) + 1, S.to_obj(S.canon_vs(v))) for n, v in c["kwargs"]])
+            kw = coq_list(["(%d, %s)" % (nm(n), S.to_obj(S.canon_vs(v))) for n, v in c["kwargs"]])
             shared = any(S.has_sharing(v) for v in c["args"]) or any(S.has_sharing(v) for _, v in c["kwargs"])
             pw = kwv = "[]"
             if shared:
@@ -534,7 +619,7 @@ def correspond(ctx, S, cases, diff):
                 voc = S.vocab_words(c["r"]["vocab"]) if c["r"]["vocab"] else None
                 seen = set()
                 pw = coq_list([S.to_wobj(S.slice_vs(canon_keep_sh(S, v), voc, seen)) for v in c["args"]])
-                kwv = coq_list(["(%d, %s)" % (NAMES.index(n) + 1, S.to_wobj(S.slice_vs(canon_keep_sh(S, v), voc, seen)))
+                kwv = coq_list(["(%d, %s)" % (nm(n), S.to_wobj(S.slice_vs(canon_keep_sh(S, v), voc, seen)))
                                 for n, v in c["kwargs"]])
             rows.append("(%s, %s, %s, vocab_table %d, %s, %s, %s)" % (c["r"]["ms"], a, kw, c["r"]["vocab"],
                                                                   "true" if shared else "false", pw, kwv))
@@ -559,6 +644,31 @@ Eval vm_compute in map (fun x => let '(ms, a, kw, voc, shared, p, k) := x in
                 bad("call", "model and implementation disagree on %r: model code %r, implementation %s(%r)"
                     % (str(dict(argspec=c["argspec"], args=c["args"], kwargs=c["kwargs"]))[:1500], m, c["r"]["outcome"], want),
                     dict(argspec=c["argspec"], args=c["args"], kwargs=c["kwargs"], model=m, impl=c["r"]["outcome"]))
+    # 1b. "symmetrically for results": the echoed value under the same constraint as RESULT constraint -- the target's
+    # outbound checkResults + slice (send_answer), the caller's AnswerUnslicer (recv_answer) -- against what callRemote got
+    ECODE = {"ok": 1, "violation-local": 2, "dead": 3, "violation-remote": 9}
+    echoes = [c for c in cases if c["r"].get("echo") is not None and c["r"]["outcome"] == "delivered" and c["r"]["echo"][0] in ECODE
+              and not any(S.has_sharing(v) for v in c["args"])]
+    for lo in range(0, len(echoes), 250):
+        chunk = echoes[lo:lo + 250]
+        rows = ["(%s, %s, vocab_table %d)" % (c["r"]["ms"], S.to_obj(S.canon_vs(c["args"][0])), c["r"]["vocab"]) for c in chunk]
+        body = EQB + "Definition cases : list (mschema * obj * list (list Z)) := " + coq_list(rows) + ".\n" + """
+Eval vm_compute in map (fun x => let '(ms, o, voc) := x in
+   match send_answer voc ms o return Z with None => 9 | Some w => acode (recv_answer (ms_resp ms) w) o end) cases.
+"""
+        try:
+            (vals,) = ctx.coq_eval("C12_results_%d" % (lo // 250), body, requires=REQ)
+        except common.CoqEvalError as e:
+            bad("broken", "the model could not be evaluated: " + str(e)[-1500:], None)
+            return
+        for c, m in zip(chunk, vals):
+            ctx.traces += 1
+            if m != ECODE[c["r"]["echo"][0]]:
+                bad("result", "model and implementation disagree on the RESULT direction for %r: model code %r (1 callback with the "
+                    "value, 2 errback at the caller, 3 connection lost, 9 refused by the target's outbound check), implementation %r"
+                    % (str(dict(argspec=c["argspec"], value=c["args"]))[:1200], m, c["r"]["echo"]),
+                    dict(argspec=c["argspec"], args=c["args"], model=m, impl=list(c["r"]["echo"])))
+    ctx.extra["result_direction_cases"] = len(echoes)
     # 2. checkObject
     oc = diff["obj"]
     for lo in range(0, len(oc), 450):
